@@ -501,6 +501,11 @@ def handlePreserve (j : Json) : Option Json := do
   let cms ← cms.toList.mapM (fun p => do
     let a ← getArr? p
     some ((← getStr? a[0]!), (← getStr? a[1]!)))
+  let cas := match (field? j "class_assigns") >>= getArr? with
+    | some arr => (arr.toList.filterMap (fun p => do
+        let a ← getArr? p
+        some ((← getStr? a[0]!), (← getStr? a[1]!))))
+    | none => []
   let usedJ ← (field? j "used") >>= getArr?
   let used ← usedJ.toList.mapM (fun p => do
     let a ← getArr? p
@@ -513,7 +518,7 @@ def handlePreserve (j : Json) : Option Json := do
     let a ← getArr? p
     some ((if a[0]!.isNull then none else getStr? a[0]!), (← getStr? a[1]!)))
   some (Json.mkObj [
-    ("safe", Json.arr ((Preserve.safeSet ⟨defs, cms, assigns⟩ pres).map Json.str).toArray),
+    ("safe", Json.arr ((Preserve.safeSet ⟨defs, cms, assigns, cas⟩ pres).map Json.str).toArray),
     ("file_preserve", Json.arr ((Preserve.filePreserve used ns).map Json.str).toArray),
     ("used_names", Json.arr ((Preserve.usedNames ⟨imported, loads, attrs⟩).map Json.str).toArray)])
 
@@ -548,6 +553,9 @@ partial def parseE (j : Json) : Option C16.E := do
   | "name" => some (.name (← getStr? a[1]!) (← ctx a[2]!))
   | "coll" => some (.coll (← es 1)) | "nary" => some (.nary (← es 1)) | "slice" => some (.slice (← es 1)) | "fstring" => some (.fstring (← es 1))
   | "unary" => some (.unary (← parseE a[1]!)) | "starred" => some (.starred (← parseE a[1]!))
+  | "keyarg" => some (.keyarg (← parseE a[1]!))
+  | "for" => some (.forStmt (← parseE a[1]!) (← parseE a[2]!) (← es 3) (← es 4))
+  | "ifstmt" => some (.ifStmt (← parseE a[1]!) (← es 2) (← es 3))
   | "bin" => some (.bin (← parseE a[1]!) (← parseE a[2]!))
   | "attribute" => some (.attribute (← parseE a[1]!) (← getStr? a[2]!) (← ctx a[3]!))
   | "subscript" => some (.subscript (← parseE a[1]!) (← parseE a[2]!) (← ctx a[3]!))
